@@ -282,6 +282,7 @@ pub fn signame(s: i32) -> &'static str {
         libc::SIGKILL => "SIGKILL",
         libc::SIGTRAP => "SIGTRAP",
         1077 => "VALGRIND-ERROR",
+        1066 => "THREAD-SANITIZER-REPORT",
         _ => "SIG?",
     }
 }
@@ -442,6 +443,13 @@ pub fn run_batch_ex<F: Fn(usize, &mut Vec<u8>)>(n: usize, cpu_secs: u64, cpu_alo
                 } else {
                     start = n;
                 }
+            }
+            ChildEnd::Exit(66) => {
+                // ThreadSanitizer (exitcode=66) reported a data race in this child: the case that was
+                // running (or, if all finished, the last one) carries the report
+                let at = done.min(n - 1);
+                ends[at] = Some(CaseEnd::Died(1066, on_death(at)));
+                start = at + 1;
             }
             ChildEnd::Exit(c) => {
                 // unexpected exit (panic escaped f => 101)
